@@ -31,6 +31,7 @@ type Obligation struct {
 	Time   float64
 	Model  string
 	Detail string
+	Smoke  bool // must NOT be provable: reachability / consistency check
 }
 
 type Gen struct {
@@ -138,6 +139,7 @@ type loopInfo struct {
 	decAtHead []string
 	headState State
 	headReach string
+	framed    []string
 }
 
 type exitPt struct {
@@ -170,6 +172,8 @@ type Act struct {
 	blkReach map[*ssa.BasicBlock]string
 	recvVars map[string]Val
 	pending  []pendingAnchor
+	modWhole map[string]bool
+	modObjs  map[string][]string
 }
 
 type pendingAnchor struct {
@@ -570,8 +574,25 @@ func (a *Act) enterLoop(li *loopInfo) blockCtx {
 	}
 	// havoc everything the body may modify
 	mods := a.loopMods(li)
+	wm0 := g.stateGet(a.entrySt, "$wm")
 	for _, hv := range mods {
+		before := g.stateGet(st, hv)
 		st[hv] = g.fresh(hv+fmt.Sprintf("_l%d", li.ordinal), g.w.heapVars[hv])
+		if hv == "$wm" {
+			g.fact("(>= " + st[hv] + " " + before + ")")
+			continue
+		}
+		// implicit frame invariant: objects that existed at function entry and are not
+		// named by the modifies clause keep their entry value (checked on every back edge)
+		if a.spec != nil && !a.modWhole[hv] && strings.HasPrefix(g.w.heapVars[hv], "(Array Ref ") && !strings.HasPrefix(hv, "Cell_") {
+			q := g.freshName("fr")
+			conds := []string{"(<= " + q + " " + wm0 + ")"}
+			for _, o := range a.modObjs[hv] {
+				conds = append(conds, not("(= "+q+" "+o+")"))
+			}
+			g.fact("(forall ((" + q + " Ref)) (! (=> " + and(conds...) + " (= (select " + st[hv] + " " + q + ") (select " + g.stateGet(a.entrySt, hv) + " " + q + "))) :pattern ((select " + st[hv] + " " + q + "))))")
+			li.framed = append(li.framed, hv)
+		}
 	}
 	// phis get fresh values
 	for _, ins := range h.Instrs {
@@ -656,6 +677,15 @@ func (a *Act) backEdge(li *loopInfo, from *ssa.BasicBlock, cond string, st State
 		t := a.trClause(env, c, "invariant")
 		g.oblige("inv-pres", fmt.Sprintf("%s/loop%d/inv%d%s/preserved@b%d", a.key, li.ordinal, k, labelSuffix(c), from.Index), cond, t, c.Src, fmt.Sprintf("%s:%d", c.File, c.Line), a.clauseProps(c))
 	}
+	for _, hv := range li.framed {
+		cur := g.stateGet(st, hv)
+		r := g.fresh("frame_r", "Ref")
+		conds := []string{"(<= " + r + " " + g.stateGet(a.entrySt, "$wm") + ")"}
+		for _, o := range a.modObjs[hv] {
+			conds = append(conds, not("(= "+r+" "+o+")"))
+		}
+		g.oblige("frame", fmt.Sprintf("%s/loop%d/frame:%s@b%d", a.key, li.ordinal, hv, from.Index), cond, implies(and(conds...), "(= (select "+cur+" "+r+") (select "+g.stateGet(a.entrySt, hv)+" "+r+"))"), "loop body respects the modifies clause for "+hv, "", a.spec.Props)
+	}
 	if len(ls.Dec) > 0 {
 		// lexicographic decrease, each component bounded below by 0 at the head
 		var news []string
@@ -736,6 +766,15 @@ func (a *Act) loopMods(li *loopInfo) []string {
 	for b := range li.body {
 		for _, ins := range b.Instrs {
 			a.g.instrMods(a, ins, set, 0)
+		}
+	}
+	for b := range li.body {
+		for _, ins := range b.Instrs {
+			switch ins.(type) {
+			case *ssa.Alloc, *ssa.MakeMap, *ssa.MakeChan, *ssa.Call, *ssa.Defer:
+				a.g.w.heapVars["$wm"] = "Int"
+				set["$wm"] = true
+			}
 		}
 	}
 	var out []string
